@@ -70,3 +70,69 @@ func VerifC18ResyncOrders() {
 	vrt.Assert(lerr == nil && !locked, "an expired lock does not lock after the rebuild")
 	vrt.Reach("end")
 }
+
+// VerifC18ResyncSplit: the blobs of a shard that holds a split object (first
+// part F, last part L carrying the parent header P) and the tombstone of P are
+// fed to the real batch put of the resync in every order and with every batch
+// boundary. Whatever the order, P is removed, no part is served any more and
+// the payload of the removed object (its parts) is reclaimable: every part is
+// in the garbage list.
+func VerifC18ResyncSplit() {
+	ep := &vmEpoch{e: 10}
+	db := vmNewDB(ep)
+	first := vmObj(0, 5, object.TypeRegular, -1, 4)
+	first.SetParent(vmObjNoID(0)) // the first part carries a parent header without an ID
+	par := vmObj(0, 4, object.TypeRegular, -1, 8)
+	last := vmObj(0, 6, object.TypeRegular, -1, 4)
+	last.SetParent(par)
+	last.SetParentID(vmOID(4))
+	last.SetFirstID(vmOID(5))
+	ts := vmObj(0, 2, object.TypeTombstone, 40, 0)
+	ts.AssociateDeleted(vmOID(4))
+	all := []*object.Object{first, last, ts}
+	pi := vrt.Choice("blobOrder", len(c18perms))
+	perm := c18perms[pi]
+	var batch []*object.Object
+	tsLast := perm[2] == 2
+	for _, i := range perm {
+		batch = append(batch, all[i])
+	}
+	splitAt := vrt.Choice("batchBoundary", len(batch)+1)
+	vrt.Assert(db.PutBatch(batch[:splitAt]) == nil, "batch put")
+	vrt.Assert(db.PutBatch(batch[splitAt:]) == nil, "batch put")
+
+	ok, err := db.Exists(vmAddr(0, 4), false)
+	vrt.Assert(c01class(ok, err) == c01Removed, "a tombstoned split object is removed whatever the blob order")
+	gb, gerr := db.GetGarbage(10)
+	vrt.Assert(gerr == nil, "garbage listing works")
+	inGarbage := func(o byte) bool {
+		for _, b := range gb {
+			for _, id := range b.Objects {
+				if id == vmOID(o) {
+					return true
+				}
+			}
+		}
+		return false
+	}
+	for _, o := range []byte{5, 6} {
+		ok, err := db.Exists(vmAddr(0, o), false)
+		served := c01class(ok, err) == c01Available
+		if tsLast {
+			vrt.Assert(!served, "no part of a tombstoned split object is available after the rebuild")
+			vrt.Assert(inGarbage(o), "the parts of a removed split object are reclaimable after the rebuild (they are in the garbage list)")
+		} else {
+			vrt.Assert(!served, "no part of a tombstoned split object is available after the rebuild (tombstone read before some of the parts)")
+			vrt.Assert(inGarbage(o), "the parts of a removed split object are reclaimable after the rebuild (tombstone read before some of the parts)")
+		}
+	}
+	vrt.Reach("end")
+}
+
+// vmObjNoID is a parent header without an ID, as the first part of a split
+// chain carries it.
+func vmObjNoID(c byte) *object.Object {
+	o := vmObj(c, 0, object.TypeRegular, -1, 0)
+	o.ResetID()
+	return o
+}
